@@ -3,9 +3,10 @@
    `plus`/`minus` = Python's a + b / a - b on the specification model (two-part rational Julian dates,
    Model/C03_TimeArith.v); None = the operation is refused (NotImplemented -> TypeError).
    `same_point x y`: both refused, or same kind, same scale and jd1 + jd2 equal. *)
-From Coq Require Import ZArith QArith Qabs List Bool String.
+From Coq Require Import ZArith QArith Qabs List Bool String Reals.
+From Flocq Require Import Core Binary Bits.
 From Verif Require Import Lib.Dyadic Model.C03_TimeArith Model.C03_Formats Model.C03_Cells Gen.C03_TimeArith Model.C03_Classify
-  Proofs.C03_TimeArith Proofs.C03_Formats Proofs.C03_Cells Proofs.C03_Gen.
+  Proofs.C03_TimeArith Proofs.C03_Formats Proofs.C03_Cells Proofs.C03_Gen Proofs.C03_Binary64.
 Import ListNotations.
 Open Scope Q_scope.
 
@@ -174,6 +175,31 @@ Proof.
   - exact accuracy_budget.
 Qed.
 Print Assumptions two_part_accuracy.
+
+(* ... and the rounding hypothesis DISCHARGED for actual IEEE-754 binary64 (Flocq's b64_plus / b64_minus, round to
+   nearest even), over the reals: for finite doubles whose whole-day parts are half-integers (|ka +- kb| < 2^53) and whose
+   fraction sum / difference is bounded by B <= 2^1000, two-part addition / subtraction errs by at most B * 2^-53;
+   B = 4 gives < 1/25 ns.  (Uses the axioms of the real numbers of the standard library.) *)
+Theorem two_part_accuracy_binary64 :
+  (forall (a1 a2 b1 b2 : Bits.binary64) (ka kb : Z) (B : R),
+     Binary.is_finite 53 1024 a1 = true -> Binary.is_finite 53 1024 a2 = true ->
+     Binary.is_finite 53 1024 b1 = true -> Binary.is_finite 53 1024 b2 = true ->
+     Binary.B2R 53 1024 a1 = (IZR ka / 2)%R -> Binary.B2R 53 1024 b1 = (IZR kb / 2)%R -> (Z.abs (ka + kb) < 2 ^ 53)%Z ->
+     (Rabs (Binary.B2R 53 1024 a2 + Binary.B2R 53 1024 b2) <= B)%R -> (B <= Raux.bpow Zaux.radix2 1000)%R ->
+     (Rabs ((Binary.B2R 53 1024 (Bits.b64_plus BinarySingleNaN.mode_NE a1 b1) + Binary.B2R 53 1024 (Bits.b64_plus BinarySingleNaN.mode_NE a2 b2))
+            - ((Binary.B2R 53 1024 a1 + Binary.B2R 53 1024 a2) + (Binary.B2R 53 1024 b1 + Binary.B2R 53 1024 b2)))
+      <= B * / 2 * Raux.bpow Zaux.radix2 (-52))%R) /\
+  (forall (a1 a2 b1 b2 : Bits.binary64) (ka kb : Z) (B : R),
+     Binary.is_finite 53 1024 a1 = true -> Binary.is_finite 53 1024 a2 = true ->
+     Binary.is_finite 53 1024 b1 = true -> Binary.is_finite 53 1024 b2 = true ->
+     Binary.B2R 53 1024 a1 = (IZR ka / 2)%R -> Binary.B2R 53 1024 b1 = (IZR kb / 2)%R -> (Z.abs (ka - kb) < 2 ^ 53)%Z ->
+     (Rabs (Binary.B2R 53 1024 a2 - Binary.B2R 53 1024 b2) <= B)%R -> (B <= Raux.bpow Zaux.radix2 1000)%R ->
+     (Rabs ((Binary.B2R 53 1024 (Bits.b64_minus BinarySingleNaN.mode_NE a1 b1) + Binary.B2R 53 1024 (Bits.b64_minus BinarySingleNaN.mode_NE a2 b2))
+            - ((Binary.B2R 53 1024 a1 + Binary.B2R 53 1024 a2) - (Binary.B2R 53 1024 b1 + Binary.B2R 53 1024 b2)))
+      <= B * / 2 * Raux.bpow Zaux.radix2 (-52))%R) /\
+  (4 * / 2 * Raux.bpow Zaux.radix2 (-52) < / 86400000000000 * / 25)%R.
+Proof. split; [exact two_part_add_binary64|split; [exact two_part_sub_binary64|exact budget_R]]. Qed.
+Print Assumptions two_part_accuracy_binary64.
 
 (* the decision procedure that compares regenerated methods with the models is sound for all operands ... *)
 Theorem method_eqb_sound : forall m m',
